@@ -5,7 +5,7 @@ from pytoniq_core.boc.address import Address
 
 PROP = 'C13'
 TRACE_MODULE = 'C13Trace.tla'
-RULE = ('all 256 workchains x (raw + 8 friendly variants) x hash patterns {00.., ff.., single bit, random}; for a sample of friendly '
+RULE = ('all 256 workchains x (raw + 8 friendly variants) x hash patterns {00.., ff.., single bit, random}; the same from objects that were parsed from each text form first (second generation); for a sample of friendly '
         'addresses ALL 48 x 63 single-symbol substitutions (a different 6-bit symbol in the variant\'s own alphabet); distinct = distinct '
         'rendered / substituted texts')
 ASSUMPTIONS = ['TonAddr: tag 0x11/0x51 (+0x80), int8 workchain, CRC-16/XMODEM big-endian, base64 std / URL-safe',
@@ -21,10 +21,20 @@ def model_checks(tier):
                  cfg='INIT Init\nNEXT Next\nCONSTANTS HashPatterns = %s\nINVARIANT ParseRender\nCHECK_DEADLOCK FALSE\n' % pats)]
 
 
-def addr_rec(wc, h, form, bounce=1, test=0, url=1):
+def addr_rec(wc, h, form, bounce=1, test=0, url=1, src=None):
+    """src: where the rendered object comes from - None: built from (wc, hash); 'raw' / 'copy' / (bounce, test, url): parsed from that
+    text form of the same address first (a second generation: what is rendered depends on the address and the requested flags only)"""
     rec = {'op': 'addr', 'wc': wc, 'hash': list(h), 'form': form, 'bounce': bounce, 'test': test, 'url': url}
+    if src is not None:
+        rec['src'] = list(src) if isinstance(src, tuple) else src
     try:
         a = Address((wc, h))
+        if src == 'raw':
+            a = Address(a.to_str(is_user_friendly=False))
+        elif src == 'copy':
+            a = Address(Address(a.to_str(is_bounceable=False, is_test_only=True)))
+        elif src is not None:
+            a = Address(a.to_str(is_user_friendly=True, is_bounceable=bool(src[0]), is_test_only=bool(src[1]), is_url_safe=bool(src[2])))
         if form == 'raw':
             s = a.to_str(is_user_friendly=False)
         else:
@@ -73,6 +83,16 @@ def generate(tier, seed, ctx):
                         out.append(r)
                         if s:
                             friendly.append((s, url))
+    # second generation: objects that were themselves parsed from a text form, rendered in every variant
+    srcs = ['raw', 'copy'] + [(b, t, u) for b in (0, 1) for t in (0, 1) for u in (0, 1)]
+    for wc in ((-128, -1, 0, 127) if q else (-128, -1, 0, 1, 127, rng.randint(-128, 127))):
+        h = bytes(rng.getrandbits(8) for _ in range(32))
+        for src in srcs:
+            out.append(addr_rec(wc, h, 'raw', src=src)[0])
+            for bounce in (0, 1):
+                for test in (0, 1):
+                    for url in (0, 1):
+                        out.append(addr_rec(wc, h, 'friendly', bounce, test, url, src=src)[0])
     for s, url in rng.sample(friendly, 3 if q else 120):
         al = URL if url else STD
         for p in range(48):
